@@ -25,6 +25,7 @@ const (
 	failModified = 2 // receiver modified by observer / enumerable / algebra
 	failCallback = 3 // callback log disagrees with the iterator walk / result
 	failTimeout  = 4 // call did not return
+	failUnsound  = 5 // a derived container (Select / Map / set-algebra result) misbehaves when it is used afterwards
 )
 
 func oz(n int) string { return strconv.Itoa(n) }
